@@ -71,7 +71,8 @@ def selector(draw, g):
         # a pattern with a string literal (blanks inside it are part of the value: 'a  b' is not 'a b')
         p3, lex = draw(st.sampled_from(lit_objs))
         pats.append(["?v", p3, '"%s"' % lex])
-    return {"kind": "sparql", "distinct": draw(st.booleans()), "patterns": pats, "layout": draw(st.sampled_from([0, 0, 0, 1, 2, 3, 4, 5, 6]))}
+    return {"kind": "sparql", "distinct": draw(st.booleans()), "patterns": pats, "layout": draw(st.sampled_from([0, 0, 0, 1, 2, 3, 4, 5, 6])),
+            "var": draw(st.sampled_from(["v", "v", "v", "Person", "V", "node_1", "s", "focusNode"]))}
 
 
 @st.composite
